@@ -1167,4 +1167,502 @@ theorem inv_seqRun {env : Env} {subs : List Sub} {calls : List Call} :
     · exact h
     · exact inv_add h
 
+/-! ### notifications: exactly once per admitted transaction and interested subscriber -/
+
+def jobsAfterPayload (subs : List Sub) (s : St) (tx : Tx) : Option Nat → List Job
+  | none => s.jobs
+  | some _ => saveEvent subs .payload tx s.jobs
+
+def notifyAll (subs : List Sub) (tx : Tx) (p : Option Nat) (jl : List Job × List Ev) : List Job × List Ev :=
+  if p.isSome then notify subs .payload tx (notify subs .tx tx jl) else notify subs .tx tx jl
+
+theorem writePayloadStep_jobs {env : Env} {subs : List Sub} {s w : St} {tx : Tx} {p : Option Nat}
+    (h : writePayloadStep env subs s tx p = .ok w) : w.jobs = jobsAfterPayload subs s tx p := by
+  unfold writePayloadStep at h
+  cases p with
+  | none => simp only [Res.ok.injEq] at h; subst h; rfl
+  | some q =>
+    simp only at h
+    split at h
+    · cases h
+    · simp only [Res.ok.injEq] at h; subst h; rfl
+
+/-- the ledger after a state-changing Add, explicitly -/
+theorem add_ledger {env : Env} {subs : List Sub} {s : St} {tx : Tx} {p : Option Nat}
+    (hne : (add env subs s tx p).1 ≠ s) :
+    (add env subs s tx p).1.ledger =
+      (notifyAll subs tx p (saveEvent subs .tx tx (jobsAfterPayload subs s tx p), s.ledger)).2 := by
+  unfold add at hne ⊢
+  cases hv : phase1 env s tx with
+  | present => simp [hv] at hne
+  | rejected e => simp [hv] at hne
+  | panicked e => simp [hv] at hne
+  | verified =>
+    simp only [hv] at hne ⊢
+    unfold phase2 at hne ⊢
+    cases hpres : s.present tx.ref with
+    | true => simp [hpres] at hne
+    | false =>
+      simp only [hpres, Bool.false_eq_true, if_false] at hne ⊢
+      cases hw : writeBody env subs s tx p with
+      | err e => simp [hw] at hne
+      | panic e => simp [hw] at hne
+      | ok w =>
+        simp only
+        unfold writeBody at hw
+        split at hw
+        · rename_i w1 hw1
+          split at hw
+          · rename_i w2 hw2
+            simp only [Res.ok.injEq] at hw
+            obtain ⟨_, _, _, _, _, _, _, a8, _, _⟩ := writePayloadStep_spec hw1
+            have hj := writePayloadStep_jobs hw1
+            obtain ⟨_, b2⟩ := graphAdd_spec hw2
+            subst hw
+            subst b2
+            simp only [afterCommit, finishWrite, notifyAll, hj, a8]
+          · cases hw
+          · cases hw
+        · cases hw
+        · cases hw
+
+/-- projection on one subscriber -/
+def pj (n : String) (jobs : List Job) : List Job := jobs.filter (fun j => j.sub = n)
+def pe (n : String) (led : List Ev) : List Ev := led.filter (fun e => e.sub = n)
+
+theorem pj_cons_pos {n : String} {j : Job} {t : List Job} (h : j.sub = n) : pj n (j :: t) = j :: pj n t := by
+  unfold pj; rw [List.filter_cons_of_pos (by simp [h])]
+theorem pj_cons_neg {n : String} {j : Job} {t : List Job} (h : j.sub ≠ n) : pj n (j :: t) = pj n t := by
+  unfold pj; rw [List.filter_cons_of_neg (by simp [h])]
+
+theorem pj_filter_other {n name : String} {r : Nat} (h : name ≠ n) : ∀ (l : List Job),
+    pj n (l.filter (fun j' => !(decide (j'.sub = name ∧ j'.ref = r)))) = pj n l := by
+  intro l
+  induction l with
+  | nil => rfl
+  | cons j t ih =>
+    by_cases hc : j.sub = name ∧ j.ref = r
+    · have hn : j.sub ≠ n := by rw [hc.1]; exact h
+      rw [List.filter_cons_of_neg (by simp [hc]), pj_cons_neg hn]; exact ih
+    · rw [List.filter_cons_of_pos (by simp [hc])]
+      by_cases hj : j.sub = n
+      · rw [pj_cons_pos hj, pj_cons_pos hj, ih]
+      · rw [pj_cons_neg hj, pj_cons_neg hj, ih]
+
+theorem pj_map_other {n name : String} {r : Nat} (h : name ≠ n) : ∀ (l : List Job),
+    pj n (l.map (fun j' => if j'.sub = name ∧ j'.ref = r then { j' with failed := true } else j')) = pj n l := by
+  intro l
+  induction l with
+  | nil => rfl
+  | cons j t ih =>
+    rw [List.map_cons]
+    by_cases hc : j.sub = name ∧ j.ref = r
+    · have hn : j.sub ≠ n := by rw [hc.1]; exact h
+      rw [if_pos hc, pj_cons_neg (by exact hn), pj_cons_neg hn]; exact ih
+    · rw [if_neg hc]
+      by_cases hj : j.sub = n
+      · rw [pj_cons_pos hj, pj_cons_pos hj, ih]
+      · rw [pj_cons_neg hj, pj_cons_neg hj, ih]
+
+theorem hasJob_pj {jobs : List Job} {n : String} {r : Nat} : hasJob jobs n r = hasJob (pj n jobs) n r := by
+  unfold hasJob pj
+  induction jobs with
+  | nil => rfl
+  | cons j t ih =>
+    simp only [List.any_cons, List.filter_cons]
+    by_cases h : j.sub = n
+    · simp [h]
+    · simp [h]
+
+theorem saveOne_other {typ : EvType} {tx : Tx} {jobs : List Job} {sub : Sub} {n : String} (h : sub.name ≠ n) :
+    pj n (saveOne typ tx jobs sub) = pj n jobs := by
+  unfold saveOne
+  split
+  · rfl
+  · split
+    · rfl
+    · split
+      · rfl
+      · unfold pj; simp [List.filter_append, h]
+
+theorem saveOne_congr {typ : EvType} {tx : Tx} {jobs jobs' : List Job} {sub : Sub}
+    (h : pj sub.name jobs = pj sub.name jobs') :
+    pj sub.name (saveOne typ tx jobs sub) = pj sub.name (saveOne typ tx jobs' sub) := by
+  unfold saveOne
+  rw [@hasJob_pj jobs, @hasJob_pj jobs', h]
+  split
+  · exact h
+  · split
+    · exact h
+    · split
+      · exact h
+      · unfold pj at *; simp only [List.filter_append]; rw [h]
+
+theorem saveEvent_other {typ : EvType} {tx : Tx} {n : String} : ∀ {subs : List Sub} {jobs : List Job},
+    (∀ sub ∈ subs, sub.name ≠ n) → pj n (saveEvent subs typ tx jobs) = pj n jobs := by
+  intro subs
+  induction subs with
+  | nil => intro jobs _; rfl
+  | cons s rest ih =>
+    intro jobs h
+    unfold saveEvent
+    simp only [List.foldl_cons]
+    have := @ih (saveOne typ tx jobs s) (fun x hx => h x (List.mem_cons_of_mem _ hx))
+    unfold saveEvent at this
+    rw [this, saveOne_other (h s List.mem_cons_self)]
+
+theorem saveEvent_self {typ : EvType} {tx : Tx} {sub0 : Sub} : ∀ {subs : List Sub} {jobs : List Job},
+    (subs.map (·.name)).Nodup → sub0 ∈ subs →
+    pj sub0.name (saveEvent subs typ tx jobs) = pj sub0.name (saveOne typ tx jobs sub0) := by
+  intro subs
+  induction subs with
+  | nil => intro jobs _ h; cases h
+  | cons s rest ih =>
+    intro jobs hnd hm
+    simp only [List.map_cons, List.nodup_cons] at hnd
+    unfold saveEvent
+    simp only [List.foldl_cons]
+    by_cases hs : s = sub0
+    · subst hs
+      have hrest : ∀ x ∈ rest, x.name ≠ s.name := by
+        intro x hx he
+        exact hnd.1 (List.mem_map.mpr ⟨x, hx, he⟩)
+      have := @saveEvent_other typ tx s.name rest (saveOne typ tx jobs s) hrest
+      unfold saveEvent at this
+      exact this
+    · have hm' : sub0 ∈ rest := by
+        cases hm with
+        | head => exact (hs rfl).elim
+        | tail _ h => exact h
+      have hne : s.name ≠ sub0.name := by
+        intro he
+        exact hnd.1 (List.mem_map.mpr ⟨sub0, hm', he.symm⟩)
+      have := @ih (saveOne typ tx jobs s) hnd.2 hm'
+      unfold saveEvent at this
+      rw [this]
+      exact saveOne_congr (saveOne_other hne)
+
+theorem notifyOne_other {typ : EvType} {tx : Tx} {jl : List Job × List Ev} {sub : Sub} {n : String} (h : sub.name ≠ n) :
+    pj n (notifyOne typ tx jl sub).1 = pj n jl.1 ∧ pe n (notifyOne typ tx jl sub).2 = pe n jl.2 := by
+  unfold notifyOne
+  split
+  · exact ⟨rfl, rfl⟩
+  · split
+    · split
+      · exact ⟨rfl, rfl⟩
+      · split
+        · exact ⟨pj_filter_other h _, by unfold pe; simp [List.filter_append, h]⟩
+        · exact ⟨pj_map_other h _, by unfold pe; simp [List.filter_append, h]⟩
+    · refine ⟨rfl, ?_⟩
+      unfold pe; simp [List.filter_append, h]
+
+theorem notify_other {typ : EvType} {tx : Tx} {n : String} : ∀ {subs : List Sub} {jl : List Job × List Ev},
+    (∀ sub ∈ subs, sub.name ≠ n) →
+    pj n (notify subs typ tx jl).1 = pj n jl.1 ∧ pe n (notify subs typ tx jl).2 = pe n jl.2 := by
+  intro subs
+  induction subs with
+  | nil => intro jl _; exact ⟨rfl, rfl⟩
+  | cons s rest ih =>
+    intro jl h
+    unfold notify
+    simp only [List.foldl_cons]
+    have h1 := @notifyOne_other typ tx jl s n (h s List.mem_cons_self)
+    have h2 := @ih (notifyOne typ tx jl s) (fun x hx => h x (List.mem_cons_of_mem _ hx))
+    unfold notify at h2
+    exact ⟨h2.1.trans h1.1, h2.2.trans h1.2⟩
+
+theorem pe_append {n : String} {l : List Ev} {e : Ev} (h : e.sub = n) : pe n (l ++ [e]) = pe n l ++ [e] := by
+  unfold pe; simp [List.filter_append, h]
+
+theorem find_pj {n : String} {r : Nat} : ∀ (l : List Job),
+    (pj n l).find? (fun j => decide (j.sub = n ∧ j.ref = r)) = l.find? (fun j => decide (j.sub = n ∧ j.ref = r)) := by
+  intro l
+  induction l with
+  | nil => rfl
+  | cons j t ih =>
+    by_cases hj : j.sub = n
+    · rw [pj_cons_pos hj, List.find?_cons, List.find?_cons, ih]
+    · rw [pj_cons_neg hj, List.find?_cons, ih]
+      simp [hj]
+
+theorem pj_filter_self {n : String} {r : Nat} : ∀ (l : List Job),
+    pj n (l.filter (fun j' => !(decide (j'.sub = n ∧ j'.ref = r)))) =
+      (pj n l).filter (fun j' => !(decide (j'.sub = n ∧ j'.ref = r))) := by
+  intro l
+  unfold pj
+  rw [List.filter_filter, List.filter_filter]
+  congr 1
+  funext j
+  exact Bool.and_comm _ _
+
+theorem pj_map_self {n : String} {r : Nat} : ∀ (l : List Job),
+    pj n (l.map (fun j' => if j'.sub = n ∧ j'.ref = r then { j' with failed := true } else j')) =
+      (pj n l).map (fun j' => if j'.sub = n ∧ j'.ref = r then { j' with failed := true } else j') := by
+  intro l
+  induction l with
+  | nil => rfl
+  | cons j t ih =>
+    rw [List.map_cons]
+    by_cases hj : j.sub = n
+    · rw [pj_cons_pos hj, List.map_cons, ← ih]
+      by_cases hc : j.sub = n ∧ j.ref = r
+      · rw [if_pos hc]; exact pj_cons_pos hj
+      · rw [if_neg hc]; exact pj_cons_pos hj
+    · have hc : ¬ (j.sub = n ∧ j.ref = r) := fun hc => hj hc.1
+      rw [if_neg hc, pj_cons_neg hj, pj_cons_neg hj, ih]
+
+/-- `notifyOne` for subscriber `sub` only looks at, and only changes, `sub`'s own jobs and ledger entries -/
+theorem notifyOne_proj {typ : EvType} {tx : Tx} {jl : List Job × List Ev} {sub : Sub} :
+    pj sub.name (notifyOne typ tx jl sub).1 = (notifyOne typ tx (pj sub.name jl.1, pe sub.name jl.2) sub).1 ∧
+    pe sub.name (notifyOne typ tx jl sub).2 = (notifyOne typ tx (pj sub.name jl.1, pe sub.name jl.2) sub).2 := by
+  unfold notifyOne
+  split
+  · exact ⟨rfl, rfl⟩
+  · split
+    · simp only [find_pj]
+      split
+      · exact ⟨rfl, rfl⟩
+      · split
+        · exact ⟨pj_filter_self _, pe_append rfl⟩
+        · exact ⟨pj_map_self _, pe_append rfl⟩
+    · exact ⟨rfl, pe_append rfl⟩
+
+theorem notifyOne_congr {typ : EvType} {tx : Tx} {jl jl' : List Job × List Ev} {sub : Sub}
+    (h1 : pj sub.name jl.1 = pj sub.name jl'.1) (h2 : pe sub.name jl.2 = pe sub.name jl'.2) :
+    pj sub.name (notifyOne typ tx jl sub).1 = pj sub.name (notifyOne typ tx jl' sub).1 ∧
+    pe sub.name (notifyOne typ tx jl sub).2 = pe sub.name (notifyOne typ tx jl' sub).2 := by
+  have a := @notifyOne_proj typ tx jl sub
+  have b := @notifyOne_proj typ tx jl' sub
+  rw [a.1, a.2, b.1, b.2, h1, h2]
+  exact ⟨rfl, rfl⟩
+
+theorem notify_self {typ : EvType} {tx : Tx} {sub0 : Sub} : ∀ {subs : List Sub} {jl : List Job × List Ev},
+    (subs.map (·.name)).Nodup → sub0 ∈ subs →
+    pj sub0.name (notify subs typ tx jl).1 = pj sub0.name (notifyOne typ tx jl sub0).1 ∧
+    pe sub0.name (notify subs typ tx jl).2 = pe sub0.name (notifyOne typ tx jl sub0).2 := by
+  intro subs
+  induction subs with
+  | nil => intro jl _ h; cases h
+  | cons s rest ih =>
+    intro jl hnd hm
+    simp only [List.map_cons, List.nodup_cons] at hnd
+    unfold notify
+    simp only [List.foldl_cons]
+    by_cases hs : s = sub0
+    · subst hs
+      have hrest : ∀ x ∈ rest, x.name ≠ s.name := by
+        intro x hx he
+        exact hnd.1 (List.mem_map.mpr ⟨x, hx, he⟩)
+      have := @notify_other typ tx s.name rest (notifyOne typ tx jl s) hrest
+      unfold notify at this
+      exact this
+    · have hm' : sub0 ∈ rest := by
+        cases hm with
+        | head => exact (hs rfl).elim
+        | tail _ h => exact h
+      have hne : s.name ≠ sub0.name := by
+        intro he
+        exact hnd.1 (List.mem_map.mpr ⟨sub0, hm', he.symm⟩)
+      have h2 := @ih (notifyOne typ tx jl s) hnd.2 hm'
+      unfold notify at h2
+      have h1 := @notifyOne_other typ tx jl s sub0.name hne
+      have h3 := @notifyOne_congr typ tx (notifyOne typ tx jl s) jl sub0 h1.1 h1.2
+      exact ⟨h2.1.trans h3.1, h2.2.trans h3.2⟩
+
+
+def evCount (led : List Ev) (n : String) (typ : EvType) (r : Nat) : Nat :=
+  ((pe n led).filter (fun e => e.typ = typ ∧ e.ref = r)).length
+
+/-- subscriber configuration as the node has it: unique names (registration refuses duplicates), and a persistent
+    subscriber listens to ONE event type (its job key is the ref alone; all three real persistent subscribers do) -/
+def SubsOK (subs : List Sub) : Prop :=
+  (subs.map (·.name)).Nodup ∧ ∀ sub ∈ subs, sub.persistent = true → ¬(sub.wantTx = true ∧ sub.wantPayload = true)
+
+theorem accepts_tx_want {sub : Sub} {tx : Tx} (h : sub.accepts .tx tx = true) : sub.wantTx = true := by
+  unfold Sub.accepts at h
+  simp only [Bool.and_eq_true] at h
+  exact h.1
+
+theorem accepts_payload_want {sub : Sub} {tx : Tx} (h : sub.accepts .payload tx = true) : sub.wantPayload = true := by
+  unfold Sub.accepts at h
+  simp only [Bool.and_eq_true] at h
+  exact h.1
+
+theorem pj_append {n : String} {l : List Job} {j : Job} (h : j.sub = n) : pj n (l ++ [j]) = pj n l ++ [j] := by
+  unfold pj; simp [List.filter_append, h]
+
+theorem find_append_last {l : List Job} {nj : Job} {q : Job → Bool} (hl : ∀ j ∈ l, q j = false) (hq : q nj = true) :
+    (l ++ [nj]).find? q = some nj := by
+  induction l with
+  | nil => simp [List.find?_cons, hq]
+  | cons j t ih =>
+    rw [List.cons_append, List.find?_cons, hl j List.mem_cons_self]
+    exact ih (fun x hx => hl x (List.mem_cons_of_mem _ hx))
+
+def txJob (n : String) (r : Nat) : Job := { sub := n, ref := r, typ := .tx, failed := false }
+
+/-- the tx notification, seen from an interested subscriber: exactly one call, with a tx event -/
+theorem notifyTx_self {subs : List Sub} {sub0 : Sub} {tx : Tx} {jobs1 : List Job} {led : List Ev}
+    (hok : SubsOK subs) (hm : sub0 ∈ subs) (hacc : sub0.accepts .tx tx = true)
+    (hnone : ∀ j ∈ jobs1, j.sub = sub0.name → j.ref ≠ tx.ref) :
+    pe sub0.name (notify subs .tx tx (saveEvent subs .tx tx jobs1, led)).2 =
+      pe sub0.name led ++ [⟨sub0.name, .tx, tx.ref⟩] := by
+  have h1 := (@notify_self .tx tx sub0 subs (saveEvent subs .tx tx jobs1, led) hok.1 hm).2
+  rw [h1, (@notifyOne_proj .tx tx (saveEvent subs .tx tx jobs1, led) sub0).2]
+  simp only
+  rw [saveEvent_self hok.1 hm]
+  have hnacc : (!sub0.accepts .tx tx) = false := by simp [hacc]
+  by_cases hp : sub0.persistent = true
+  · have hnj : hasJob jobs1 sub0.name tx.ref = false := by
+      unfold hasJob
+      rw [List.any_eq_false]
+      intro j hj hc
+      simp only [decide_eq_true_eq] at hc
+      exact hnone j hj hc.1 hc.2
+    have hsave : saveOne .tx tx jobs1 sub0 = jobs1 ++ [txJob sub0.name tx.ref] := by
+      unfold saveOne txJob
+      simp [hp, hacc, hnj]
+    rw [hsave, pj_append (n := sub0.name) (j := txJob sub0.name tx.ref) rfl]
+    unfold notifyOne
+    simp only [hnacc, Bool.false_eq_true, if_false, hp, if_true]
+    have hfind : (pj sub0.name jobs1 ++ [txJob sub0.name tx.ref]).find?
+        (fun j : Job => decide (j.sub = sub0.name ∧ j.ref = tx.ref)) = some (txJob sub0.name tx.ref) := by
+      apply find_append_last
+      · intro j hj
+        unfold pj at hj
+        have := List.mem_filter.mp hj
+        simp only [decide_eq_false_iff_not, not_and]
+        intro hs
+        exact hnone j this.1 hs
+      · simp [txJob]
+    rw [hfind]
+    simp only [txJob]
+    split <;> rfl
+  · have hsave : saveOne .tx tx jobs1 sub0 = jobs1 := by
+      unfold saveOne
+      simp [hp]
+    rw [hsave]
+    unfold notifyOne
+    simp only [hnacc, Bool.false_eq_true, if_false, hp]
+
+/-- the payload notification adds, for a tx-interested subscriber, at most one event and it is of type payload -/
+theorem notifyPayload_self {subs : List Sub} {sub0 : Sub} {tx : Tx} {jl : List Job × List Ev}
+    (hok : SubsOK subs) (hm : sub0 ∈ subs) (hacc : sub0.accepts .tx tx = true) :
+    ∃ extra, (∀ e ∈ extra, e.typ = EvType.payload) ∧
+      pe sub0.name (notify subs .payload tx jl).2 = pe sub0.name jl.2 ++ extra := by
+  have h1 := (@notify_self .payload tx sub0 subs jl hok.1 hm).2
+  rw [h1]
+  unfold notifyOne
+  split
+  · exact ⟨[], by simp, by simp⟩
+  · rename_i hacc2
+    have hwp : sub0.wantPayload = true := accepts_payload_want (by simpa using hacc2)
+    have hnp : ¬ sub0.persistent = true := fun hp => hok.2 sub0 hm hp ⟨accepts_tx_want hacc, hwp⟩
+    simp only [hnp, if_false]
+    exact ⟨[⟨sub0.name, .payload, tx.ref⟩], by simp, pe_append rfl⟩
+
+theorem jobsAfterPayload_self {subs : List Sub} {sub0 : Sub} {s : St} {tx : Tx} {p : Option Nat}
+    (hok : SubsOK subs) (hm : sub0 ∈ subs) (hacc : sub0.accepts .tx tx = true) :
+    pj sub0.name (jobsAfterPayload subs s tx p) = pj sub0.name s.jobs := by
+  cases p with
+  | none => rfl
+  | some q =>
+    unfold jobsAfterPayload
+    rw [saveEvent_self hok.1 hm]
+    congr 1
+    unfold saveOne
+    by_cases hp : sub0.persistent = true
+    · have : sub0.accepts .payload tx = false := by
+        cases h : sub0.accepts .payload tx with
+        | false => rfl
+        | true => exact (hok.2 sub0 hm hp ⟨accepts_tx_want hacc, accepts_payload_want h⟩).elim
+      simp [hp, this]
+    · simp [hp]
+
+/-- one admission: for every subscriber interested in the transaction, its ledger grows by exactly one tx event
+    (plus possibly a payload event) -/
+theorem admit_ledger_self {env : Env} {subs : List Sub} {sub0 : Sub} {s : St} {tx : Tx} {p : Option Nat}
+    (hok : SubsOK subs) (hm : sub0 ∈ subs) (hacc : sub0.accepts .tx tx = true)
+    (hjobs : ∀ j ∈ s.jobs, j.ref ≠ tx.ref) (hne : (add env subs s tx p).1 ≠ s) :
+    ∃ extra, (∀ e ∈ extra, e.typ = EvType.payload) ∧
+      pe sub0.name (add env subs s tx p).1.ledger = pe sub0.name s.ledger ++ [⟨sub0.name, .tx, tx.ref⟩] ++ extra := by
+  rw [add_ledger hne]
+  have hnone : ∀ j ∈ jobsAfterPayload subs s tx p, j.sub = sub0.name → j.ref ≠ tx.ref := by
+    intro j hj hs
+    have : j ∈ pj sub0.name (jobsAfterPayload subs s tx p) := by
+      unfold pj; exact List.mem_filter.mpr ⟨hj, by simp [hs]⟩
+    rw [jobsAfterPayload_self hok hm hacc] at this
+    unfold pj at this
+    exact hjobs j (List.mem_filter.mp this).1
+  have htx := @notifyTx_self subs sub0 tx (jobsAfterPayload subs s tx p) s.ledger hok hm hacc hnone
+  unfold notifyAll
+  split
+  · obtain ⟨extra, he, hp⟩ := @notifyPayload_self subs sub0 tx
+      (notify subs .tx tx (saveEvent subs .tx tx (jobsAfterPayload subs s tx p), s.ledger)) hok hm hacc
+    exact ⟨extra, he, by rw [hp, htx]⟩
+  · exact ⟨[], by simp, by rw [htx]; simp⟩
+
+
+theorem evCount_append {l a : List Ev} {n : String} {typ : EvType} {r : Nat} :
+    evCount (l ++ a) n typ r = evCount l n typ r + evCount a n typ r := by
+  unfold evCount pe
+  simp [List.filter_append]
+
+theorem evCount_zero {l : List Ev} {n : String} {typ : EvType} {r : Nat} (h : ∀ e ∈ l, e.ref ≠ r) :
+    evCount l n typ r = 0 := by
+  unfold evCount pe
+  rw [List.length_eq_zero_iff, List.filter_eq_nil_iff]
+  intro e he
+  have := (List.mem_filter.mp he).1
+  simp [h e this]
+
+/-- the per-subscriber count only depends on the subscriber's projection -/
+theorem evCount_pe {l : List Ev} {n : String} {typ : EvType} {r : Nat} :
+    evCount l n typ r = ((pe n l).filter (fun e => e.typ = typ ∧ e.ref = r)).length := rfl
+
+theorem once_add {env : Env} {subs : List Sub} {s : St} {tx : Tx} {p : Option Nat}
+    (hok : SubsOK subs) (hi : Inv env s)
+    (ho : ∀ sub ∈ subs, ∀ t ∈ s.txs, sub.accepts .tx t = true → evCount s.ledger sub.name .tx t.ref = 1) :
+    ∀ sub ∈ subs, ∀ t ∈ (add env subs s tx p).1.txs, sub.accepts .tx t = true →
+      evCount (add env subs s tx p).1.ledger sub.name .tx t.ref = 1 := by
+  by_cases hne : (add env subs s tx p).1 = s
+  · rw [hne]; exact ho
+  · rcases @add_cases env subs s tx p with h | ⟨_, ha⟩
+    · exact (hne h).elim
+    · intro sub hm t ht hacc
+      rw [ha.txs] at ht
+      have hold0 : ∀ e ∈ s.ledger, e.ref ≠ tx.ref := by
+        intro e he hr
+        exact ha.fresh (hr ▸ hi.ledgerRefs e he)
+      cases ht with
+      | head =>
+        have hjobs : ∀ j ∈ s.jobs, j.ref ≠ tx.ref := by
+          intro j hj hr
+          exact ha.fresh (hr ▸ hi.jobsRefs j hj)
+        obtain ⟨extra, hex, hpe⟩ := @admit_ledger_self env subs sub s tx p hok hm hacc hjobs hne
+        rw [evCount_pe, hpe]
+        have h0 : ((pe sub.name s.ledger).filter (fun e => e.typ = EvType.tx ∧ e.ref = tx.ref)) = [] := by
+          rw [List.filter_eq_nil_iff]
+          intro e he
+          have := (List.mem_filter.mp he).1
+          simp [hold0 e this]
+        have h2 : (extra.filter (fun e => e.typ = EvType.tx ∧ e.ref = tx.ref)) = [] := by
+          rw [List.filter_eq_nil_iff]
+          intro e he
+          simp [hex e he]
+        rw [List.filter_append, List.filter_append, h0, h2]
+        simp
+      | tail _ ht =>
+        have hr : t.ref ≠ tx.ref := by
+          intro he
+          apply ha.fresh
+          rw [← he]
+          unfold refsOf
+          exact List.mem_map.mpr ⟨t, ht, rfl⟩
+        obtain ⟨addl, hadd, hall⟩ := ha.ledger
+        rw [hadd, evCount_append, ho sub hm t ht hacc, evCount_zero]
+        intro e he hc
+        exact hr (hc.symm.trans (hall e he))
+
+
 end Nuts.C06
